@@ -120,6 +120,38 @@ def gen_cases(tier, seed):
                                  [c, d, a], [], [x], [x, a], [y, c, d]])
             explicit = list(dict.fromkeys(explicit))
             forced_pre = 'einstein' if x in explicit or y in explicit else None
+        if r.random() < 0.06:
+            # a resolvable pair (or power) whose only other object is a bracket
+            # (sum) with exponent 1: after the replacement the product is a sum of
+            # several terms
+            allp = pools[space]
+            x, a, b = r.sample(allp, 3)
+            if r.random() < 0.5:
+                b = a
+            first = r.random() < 0.5
+            objs = []
+            if a == b and r.random() < 0.6:
+                up = [x, a] if first else [a, x]
+                o = {'t': kind, 'name': 'U', 'up': up, 'exp': 2}
+                if kind == 'anti':
+                    o = {'t': 'anti', 'name': 'U', 'up': up[:1], 'lo': up[1:],
+                         'bk': 0, 'exp': 2}
+                objs.append(o)
+            else:
+                for z in (a, b):
+                    up = [x, z] if first else [z, x]
+                    o = {'t': kind, 'name': 'U', 'up': up}
+                    if kind == 'anti':
+                        o = {'t': 'anti', 'name': 'U', 'up': up[:1],
+                             'lo': up[1:], 'bk': 0}
+                    objs.append(o)
+            objs.append({'t': 'br', 'e': [[r.choice(['1', '2', '-1']), a],
+                                          [r.choice(['1', '3']), b]] if a != b
+                         else [['1', a], ['2', r.choice([s_ for s_ in allp
+                                                         if s_ not in (x, a)])]],
+                         'exp': 1})
+            terms = [{'pref': r.choice(['1', '-1', '1/2']), 'objs': objs}]
+            mode, explicit = 'einstein', None
         if r.random() < 0.08:
             # closed ring  U_{x0 y0} U_{x1 y0} U_{x1 y1} U_{x2 y1} ... : every
             # index is contracted and occurs on U only; the value is the trace of
